@@ -238,6 +238,10 @@ func init() {
 			f.db.Close()
 			f.db = nil
 		}
+		if _, err := os.Stat(f.path); os.IsNotExist(err) {
+			s.obs("open nofile")
+			return
+		}
 		db, err := wt.Open(f.path, wt.WithoutFlock())
 		if err != nil {
 			s.obs("open err")
